@@ -58,6 +58,16 @@ theorem lastLE_prefix_none (f : Nat → Int) (hmono : ∀ i, f i < f (i + 1)) (N
         · exact Int.le_of_lt (strict_mono_of_step f hmono 0 M (by omega))
       rw [if_neg (by omega)]
 
+theorem exists_index (f : Nat → Int) (j : Nat) (x : Int) (h0 : f 0 ≤ x) (hx : x < f j) :
+    ∃ i, i < j ∧ f i ≤ x ∧ x < f (i + 1) := by
+  induction j with
+  | zero => omega
+  | succ k ih =>
+      by_cases c : f k ≤ x
+      · exact ⟨k, by omega, c, hx⟩
+      · obtain ⟨i, hi, a, b⟩ := ih (by omega)
+        exact ⟨i, by omega, a, b⟩
+
 /-- onset (seconds since ordinal 0) of the yearly rule in year `y0 + k` -/
 def onset (y0 hh mm ss m w d : Int) (k : Nat) : Int :=
   Posix.ruleOrdinal (y0 + k) (.M m w d) * 86400 + (hh * 3600 + mm * 60 + ss)
